@@ -254,7 +254,7 @@ def judge (isHead : Bool) (writes : List Write) (view : String) : String :=
       if probs.isEmpty then "ok" else "bad:" ++ "+".intercalate probs
 
 def handle : List String → Option String
-  | ["variant"] => some (match codeVariant with | .old => "old" | .current => "current" | .proposed => "proposed")
+  | ["variant"] => some (match codeVariant with | .old => "old" | .current => "current")
   | ["run", strat, mode, ini, reqs, sched] => do
     let c : Cfg := { strat := ← parseStrat strat, rmode := ← parseMode mode }
     let fs ← parseInit ini
